@@ -39,14 +39,25 @@ ISSUE_CODES = [
 ]
 
 
+BUILD_CODES = [
+    (r"imported and not used", "go-unused-import"),
+    (r"cannot find (type|struct)|undefined: |has not been declared|was not declared|cannot find symbol|is not defined", "reference-to-undeclared"),
+    (r"redefinition|redeclar|already defined|conflicting declaration|duplicate", "duplicate-declaration"),
+    (r"does not name a type|expected .* before|expected expression|SyntaxError|expected one of|expected identifier", "syntax"),
+    (r"mismatched types|incompatible types|cannot convert|cannot use", "type-mismatch"),
+    (r"no method named|has no member|no member named|has no attribute|undefined \(type", "no-such-member"),
+]
+
 CAUSED_BY = {
+    "field-name-is-keyword": ["build/rust/identifier", "build/java/identifier", "build/cpp/identifier", "build/python/", "build/cpp/syntax", "build/java/syntax",
+                              "build/rust/syntax", "native-syntax/", "residue/", "other:", "python-empty-body"],
     "char-scalar-unsupported": ["incomplete/", "member-without-type", "other:unknown-type", "other:write-basic-type", "python-empty-body", "native-syntax/",
                                 "residue/", "boilerplate-names-non-member", "other:eq-compares", "step-type-vs-member-type", "other:checksum-service-type",
-                                "ill-scoped/", "other:", "go-constructor-shape", "length-patch-shape"],
+                                "ill-scoped/", "other:", "go-constructor-shape", "length-patch-shape", "build/"],
     "names-not-case-stable": ["ill-scoped/", "incomplete/", "boilerplate-names-non-member", "type-name-mangled", "residue/", "go-constructor-shape",
                               "duplicate-declaration", "reference-to-undeclared", "other:", "native-syntax/", "rust-ctor-fields", "rust-match-arm-shape",
                               "factory-key-shape", "go-object-decode-wrong-member", "step-type-vs-member-type", "length-patch-shape",
-                              "cpp-arrow-vs-member-kind"],
+                              "cpp-arrow-vs-member-kind", "build/"],
 }
 
 
@@ -80,6 +91,58 @@ def native_syntax(lang, files, d):
     return True, ""
 
 
+def build_one(job):
+    """C++: the emitted header alone (a test that misuses the header must not count against the codec);
+    other targets: the runner of /verif/runtime, errors are separated by location afterwards"""
+    import shutil
+    import checks_selftest as cs
+    lang, d, mode = job
+    if lang != "cpp":
+        return cs.real_run(job)
+    rt = os.path.join(cs.VERIF, "runtime", "cpp", "include")
+    os.makedirs(os.path.join(d, "include"), exist_ok=True)
+    for f in os.listdir(rt):
+        shutil.copy(os.path.join(rt, f), os.path.join(d, "include", f))
+    hdrs = sorted(f for f in os.listdir(os.path.join(d, "include")) if f not in os.listdir(rt))
+    with open(os.path.join(d, "hdr.cpp"), "w") as fh:
+        fh.write("".join('#include "include/%s"\n' % h for h in hdrs))
+    try:
+        p = subprocess.run(["g++", "-std=c++17", "-fsyntax-only", "-w", "-fmax-errors=5", "-I.", "-Iinclude", "hdr.cpp"], cwd=d,
+                           capture_output=True, text=True, timeout=300)
+        return {"target": "cpp", "build": "ok" if p.returncode == 0 else "error", "build_log": p.stderr[-4000:], "tests": []}
+    except Exception as e:
+        return {"runner_error": "%s: %s" % (type(e).__name__, str(e)[:200])}
+
+
+def real_builds(items, results):
+    """build every clean-looking codec output with the target's own toolchain (supporting evidence for 'valid program')"""
+    import concurrent.futures
+    import checks_selftest as cs
+    work = scratch("fpv-c07-")
+    jobs, meta = [], []
+    try:
+        for i, ((prof, t), item) in enumerate(zip(items, results)):
+            if "error" in item:
+                continue
+            for lang in cs.LANGS:
+                ent = item["targets"].get(lang) or {}
+                if "files" not in ent or "diags" in ent or "synerr" in ent:
+                    continue
+                if lang == "go" and not (re.search(r"^\s*GoPackage\s*=", t, re.M) and re.search(r"^\s*GoModule\s*=", t, re.M)):
+                    continue
+                if lang == "java" and not re.search(r"^\s*JavaPackage\s*=", t, re.M):
+                    continue
+                d = os.path.join(work, "%04d" % i, lang)
+                cs.write_files(d, ent["files"])
+                jobs.append((lang, d, "none"))
+                meta.append((i, lang))
+        with concurrent.futures.ThreadPoolExecutor(max_workers=14) as pool:
+            res = list(pool.map(build_one, jobs))
+    finally:
+        rm(work)
+    return {k: r for k, r in zip(meta, res)}
+
+
 def run_c07(ctx):
     check_obligations(ctx, "C07")
     n = 50 if ctx.tier == "quick" else 800
@@ -87,9 +150,19 @@ def run_c07(ctx):
     items = []
     for i in range(n):
         # one feature at a time, so that a finding can be attributed to the construct that causes it
-        prof = ["safe", "safe", "char", "names"][i % 4]
-        cfg = {"safe": dslgen.Cfg(), "char": dslgen.Cfg(allow_char=True), "names": dslgen.Cfg(odd_names=True)}[prof]
-        t = dslgen.render(dslgen.gen_program(rng, cfg))
+        prof = ["safe", "safe", "char", "names", "kw"][i % 5]
+        cfg = {"safe": dslgen.Cfg(), "char": dslgen.Cfg(allow_char=True), "names": dslgen.Cfg(odd_names=True), "kw": dslgen.Cfg()}[prof]
+        if prof == "kw":
+            saved = list(dslgen.FLD_NAMES)
+            dslgen.FLD_NAMES[:] = rng.sample(dslgen.KEYWORD_NAMES, 6) + saved[:10]
+            try:
+                t = dslgen.render(dslgen.gen_program(rng, cfg))
+            finally:
+                dslgen.FLD_NAMES[:] = saved
+            if not any(re.search(r"\b%s\b" % k, t) for k in dslgen.KEYWORD_NAMES):
+                prof = "safe"
+        else:
+            t = dslgen.render(dslgen.gen_program(rng, cfg))
         if prof == "char" and not re.search(r"\bchar \w", t):
             prof = "safe"
         if prof == "names" and not any(nm in t for nm in dslgen.ODD_NAMES):
@@ -98,9 +171,11 @@ def run_c07(ctx):
     items += [("safe", t) for t in pipeline.corpus_texts()]
     texts = [t for _, t in items]
     results = pipeline.run_pipeline(texts, "c07-%s-%d" % (ctx.tier, ctx.seed))
+    import checks_selftest as cs
+    builds = real_builds(items, results)
     d = scratch()
     try:
-        for (prof, t), item in zip(items, results):
+        for idx, ((prof, t), item) in enumerate(zip(items, results)):
             if "error" in item:
                 ctx.count("rejected_by_compiler")
                 continue
@@ -117,7 +192,7 @@ def run_c07(ctx):
                 ok = True
                 real_finding = ctx.finding
                 if prof != "safe":
-                    cause = {"char": "char-scalar-unsupported", "names": "names-not-case-stable"}[prof]
+                    cause = {"char": "char-scalar-unsupported", "names": "names-not-case-stable", "kw": "field-name-is-keyword"}[prof]
 
                     def collapsed(sig, what, replay=None, found=True, _c=cause, _l=lang):
                         # only findings this construct can plausibly cause are folded into its signature
@@ -163,6 +238,21 @@ def run_c07(ctx):
                     if not good:
                         ok = False
                         ctx_finding("native-syntax/%s" % lang, "the target's own parser rejects an emitted file: " + msg, dict(rep, message=msg))
+                rb = builds.get((idx, lang))
+                if rb is not None:
+                    if "runner_error" in rb:
+                        real_finding("tool/runner/%s" % lang, rb["runner_error"], rep, False)
+                    else:
+                        ctx.count("codec_outputs_built_with_the_target_toolchain")
+                        errs = cs.codec_build_errors(lang, ent["files"], rb)
+                        for (f, no, msg) in errs[:1]:     # the first message only: later ones are usually its consequences
+                            ok = False
+                            code = cs.code_of(msg, cs.REAL_CODES + BUILD_CODES, "other")
+                            ctx_finding("build/%s/%s" % (lang, code), "the %s toolchain rejects the emitted codec: %s:%d: %s" % (lang, f, no, msg[:160]),
+                                        dict(rep, file=f, line=no, message=msg,
+                                             emitted="\n".join((ent["files"].get(f) or ent["files"].get(f.split("/", 1)[-1]) or "").split("\n")[max(0, no - 6):no + 3])))
+                        if not errs:
+                            ctx.count("codec_outputs_that_build")
                 if ok:
                     ctx.count("programs_clean")
                     ctx.sample({"target": lang, "dsl": t[:200], "verdict": "every line consumed, no marker, scoped, complete"}, 3)
